@@ -123,7 +123,7 @@ func (r *responseCache) GetRefs(urlKey string) (ResponseRefs, error) {
 }
 
 func (r *responseCache) SetRefs(urlKey string, refs ResponseRefs) error {
-	data, err := json.Marshal(refs)
+	data, err := json.Marshal(uniqueRefs(refs))
 	if err != nil {
 		return newCacheError(
 			err,
@@ -132,4 +132,24 @@ func (r *responseCache) SetRefs(urlKey string, refs ResponseRefs) error {
 		)
 	}
 	return r.cache.Set(urlKey, data)
+}
+
+// uniqueRefs returns refs with at most one reference per response ID; of
+// several references to the same stored response the most recent (last) one
+// is kept. Without this, a response that never matches (Vary: *) adds a
+// reference to the same entry on every request and the index grows without bound.
+func uniqueRefs(refs ResponseRefs) ResponseRefs {
+	seen := make(map[string]struct{}, len(refs))
+	out := make(ResponseRefs, 0, len(refs))
+	for i := len(refs) - 1; i >= 0; i-- {
+		if ref := refs[i]; ref != nil {
+			if _, dup := seen[ref.ResponseID]; dup {
+				continue
+			}
+			seen[ref.ResponseID] = struct{}{}
+		}
+		out = append(out, refs[i])
+	}
+	slices.Reverse(out)
+	return out
 }
